@@ -6,8 +6,8 @@ VERIF = os.path.dirname(os.path.dirname(os.path.abspath(__file__)))
 
 CLAIMED = {
     "C07": dict(
-        technique="TLA+ PlusCal transcription of the RFC slice procedure model-checked by TLC (termination, closed form, clamping lemma) and, for unbounded integers, an inductive invariant of the same procedure discharged by Apalache (SliceInd.tla); every Done state replayed into find(); text-level records trace-validated by TLC",
-        text="TLC exhaustively explores the RFC's normalise/bounds/loop procedure (Slice.tla) for len 0..6(9) x all (start,end,step) in {omitted} u -8..8(-11..11) u {+-(2^53-1) via the clamping lemma}; each terminal state is replayed into the implementation (spec->code) and index/slice records of the implementation (selector lists, blank space, nested/descendant positions, objects, scalars, 2^53-1 literals) are validated against Eval.tla by TLC (code->spec). Exhaustive within the stated grid; beyond it only the clamping lemma's argument.",
+        technique="TLA+ PlusCal transcription of the RFC slice procedure model-checked by TLC (termination, closed form, clamping lemma) and, for unbounded integers, an inductive invariant of the same procedure discharged by Apalache (SliceInd.tla) together with the unbounded clamping lemma (ClampInd.tla); every Done state replayed into find(); text-level records trace-validated by TLC",
+        text="TLC exhaustively explores the RFC's normalise/bounds/loop procedure (Slice.tla) for len 0..6(9) x all (start,end,step) in {omitted} u -8..8(-11..11) u {+-(2^53-1) via the clamping lemma}; each terminal state is replayed into the implementation (spec->code) and index/slice records of the implementation (selector lists, blank space, nested/descendant positions, objects, scalars, 2^53-1 literals) are validated against Eval.tla by TLC (code->spec). Exhaustive within the stated grid; beyond it the spec-level statements are unbounded (Apalache: SliceInd inductive invariant, ClampInd clamping lemma over arbitrary integers) while the implementation is sampled.",
         note="Trusted: TLC/SANY, the transcription of RFC 9535 2.3.3/2.3.4.2.2, the Python<->spec codecs; 32-bit TLC integers (2^30-1 stands for 2^53-1 by lemma T4c).",
         design_ref="4 (C07), 3.6",
     ),
@@ -109,10 +109,10 @@ def main() -> None:
             {"name": "tlc", "path": "/usr/local/bin/tlc", "serves_properties": sorted(CLAIMED),
              "kind_free_text": "TLC 1.8 explicit-state model checker on /verif/spec/*.tla (MC: internal theorems; GEN: exported states replayed into the code; TRACE: ndjson records of real executions validated step by step)"},
             {"name": "apalache", "path": "/usr/local/bin/apalache-mc", "serves_properties": ["C07"],
-             "kind_free_text": "Apalache 0.58 symbolic model checker: discharges the inductive invariant of the RFC slice procedure (spec/SliceInd.tla) for unbounded integers; TLC checks the same procedure on small constants and exports its states"},
+             "kind_free_text": "Apalache 0.58 symbolic model checker: discharges the inductive invariant of the RFC slice procedure (spec/SliceInd.tla) and the clamping lemma T4c (spec/ClampInd.tla) for unbounded integers; TLC checks the same procedure on small constants and exports its states"},
         ],
         "checks": checks,
-        "notes": "One TLA+ specification (/verif/spec) used in three TLC modes: MC, GEN (spec->code), TRACE (code->spec). See DESIGN.md. `./check EXTRA` (not a listed property) holds coverage beyond the list: TokenStream.tla replayed into tokens.TokenStream, the repository's own test suite trace-validated at the API boundary, and Lexer.tla bound to Lexer.run step by step through the env-guarded hook. `./check selftest` holds the RFC anchors, the corrupted-trace self-test and (thorough) the 264 seeded changes (each must be caught) and the 24 behaviour-preserving changes (each must stay quiet). Also beyond the list, in ./check EXTRA: Parser.tla / Evaluator.tla / Unparse.tla (the implementation-shaped parser and evaluator, refinement theorems T15 / T16 / T2) bound to the code by exported unit texts and pcompile records. Apalache discharges the unbounded slice invariant (SliceInd.tla) inside C07.",
+        "notes": "One TLA+ specification (/verif/spec) used in three TLC modes: MC, GEN (spec->code), TRACE (code->spec). See DESIGN.md. `./check EXTRA` (not a listed property) holds coverage beyond the list: TokenStream.tla replayed into tokens.TokenStream, the repository's own test suite trace-validated at the API boundary, and Lexer.tla bound to Lexer.run step by step through the env-guarded hook. `./check selftest` holds the RFC anchors, the corrupted-trace self-test and (thorough) the 264 seeded changes (each must be caught) and the 24 behaviour-preserving changes (each must stay quiet). Also beyond the list, in ./check EXTRA: Parser.tla / Evaluator.tla / Unparse.tla (the implementation-shaped parser and evaluator, refinement theorems T15 / T16 / T2) bound to the code by exported unit texts and pcompile records. Apalache discharges the unbounded slice invariant (SliceInd.tla) and the unbounded clamping lemma (ClampInd.tla) inside C07.",
         "not_applicable": na,
     }
     with open(os.path.join(VERIF, "MANIFEST.json"), "w") as fh:
